@@ -73,9 +73,10 @@ class Names:
 def render_num(rng, v, allow_exotic=True):
     """one of the spellings of an integer the grammar admits inside constraints"""
     if allow_exotic and v >= 0 and rng.random() < 0.2:
+        z = '0' * rng.choice([0, 0, 1, 2, 3])       # leading zeros are part of the literal as written
         if rng.random() < 0.5:
-            return "'%X'H" % v if rng.random() < 0.5 else "'%x'h" % v
-        return "'%s'B" % bin(v)[2:]
+            return "'%s%X'H" % (z, v) if rng.random() < 0.5 else "'%s%x'h" % (z, v)
+        return "'%s%s'B" % (z, bin(v)[2:])
     return str(v)
 
 
@@ -142,7 +143,8 @@ TEXT_SAMPLES = ['A plain description.', 'Two  spaces   and a\n        line break
 
 NASTY_TEXTS = ['back\\slash C:\\new\\table \\u0027 \\x41 \\N{DASH} end', "it's 'quoted' '' double-apostrophe",
                'caf\u00e9 \u2603 snowman', 'W' * 130, '  leading and trailing  ', 'line one\n\n\nline four',
-               'percent %s %d {braces} {{x}}', 'ends with backslash\\', 'tab\there', '<html> & </nope>', 'a\\\\b']
+               'percent %s %d {braces} {{x}}', 'ends with backslash\\', 'tab\there', '<html> & </nope>', 'a\\\\b', 'form\x0cfeed and vt\x0btab', 'nel\x85 ls\u2028 ps\u2029 fs\x1c gs\x1d rs\x1e',
+               'astral \U0001d6c0 char']
 
 
 class SetGen:
@@ -590,15 +592,20 @@ def defval_text(dv):
     raise ValueError(dv)
 
 
-def print_module(m, rng, wild=False):
-    """returns SMIv2 text; tokens are joined by layout separators"""
+def print_module(m, rng, wild=False, positions=None, blocks=False, spell_seed=0):
+    """returns SMIv2 text; tokens are joined by layout separators.
+    positions: optional list that receives (token text, offset, 1-based line) per printed token;
+    blocks: sprinkle EXPORTS / MACRO / CHOICE filler blocks with random bodies."""
     L = Layout(rng, wild)
+    srng = __import__('random').Random('%s/%s' % (m['name'], spell_seed))   # token spellings do not depend on the layout
     toks = []
 
     def t(*xs):
         toks.extend(xs)
 
     t(m['name'], 'DEFINITIONS', '::=', 'BEGIN')
+    if blocks and rng.random() < 0.6:
+        t('EXPORTS ' + filler(rng, ';') + ';')
     if m['imports']:
         t('IMPORTS')
         items = list(m['imports'].items())
@@ -609,6 +616,12 @@ def print_module(m, rng, wild=False):
         toks[-1] = toks[-1] + ';'
     for d in m['decls']:
         k = d['kind']
+        if blocks and rng.random() < 0.25:
+            if rng.random() < 0.5:
+                t(rng.choice(['OBJECT-TYPE', 'MODULE-IDENTITY', 'NOTIFICATION-TYPE', 'TEXTUAL-CONVENTION', 'OBJECT-GROUP']), 'MACRO ::= BEGIN ' + filler(rng, 'END') + ' END')
+            else:
+                t('Filler%d' % rng.randint(0, 99999), '::=', 'CHOICE { ' + filler(rng, '}') + ' }')
+            toks.append(None)
         if k == 'valueDecl':
             t(d['name'], 'OBJECT', 'IDENTIFIER', '::=', oid_text(d['oidparts']))
         elif k == 'moduleIdentity':
@@ -624,12 +637,12 @@ def print_module(m, rng, wild=False):
             t('::=', oid_text(d['oidparts']))
         elif k in ('typeDecl', 'textualConvention'):
             if k == 'typeDecl':
-                t(d['name'], '::=', syntax_text(rng, d['syntax']))
+                t(d['name'], '::=', syntax_text(srng, d['syntax']))
             else:
                 t(d['name'], '::=', 'TEXTUAL-CONVENTION')
                 if d['displayHint']:
                     t('DISPLAY-HINT', q(d['displayHint']))
-                t('STATUS', d['status'], 'DESCRIPTION', q(d['description']), 'SYNTAX', syntax_text(rng, d['syntax']))
+                t('STATUS', d['status'], 'DESCRIPTION', q(d['description']), 'SYNTAX', syntax_text(srng, d['syntax']))
         elif k == 'sequenceDecl':
             t(d['name'], '::=', 'SEQUENCE', '{', ', '.join('%s %s' % f for f in d['fields']), '}')
         elif k == 'objectType':
@@ -638,7 +651,7 @@ def print_module(m, rng, wild=False):
             if 'seqof' in syn:
                 t('SEQUENCE', 'OF', syn['seqof'])
             else:
-                t(syntax_text(rng, syn))
+                t(syntax_text(srng, syn))
             if d['units']:
                 t('UNITS', q(d['units']))
             t('MAX-ACCESS', d['access'], 'STATUS', d['status'], 'DESCRIPTION', q(d['description']))
@@ -673,13 +686,40 @@ def print_module(m, rng, wild=False):
         toks.append(None)   # declaration boundary
     t('END')
     out = []
+    offset, line = 0, 1
+
+    def emit(x):
+        nonlocal offset, line
+        out.append(x)
+        offset += len(x)
+        line += x.count('\n') + x.count('\r') - x.count('\r\n')
     for tok in toks:
         if tok is None:
-            out.append(L.nl())
+            emit(L.nl())
         else:
-            out.append(tok)
-            out.append(L.sp())
-    return ''.join(out) + L.eol
+            if positions is not None:
+                positions.append((tok, offset, line))
+            emit(tok)
+            emit(L.sp())
+    emit(L.eol)
+    return ''.join(out)
+
+
+def filler(rng, terminator):
+    """random body of an EXPORTS / MACRO / CHOICE block, not containing its terminator"""
+    words = ['TYPE', 'NOTATION', '::=', 'value', '(', ')', 'a,', 'b', '"str"', '|', '--c', '\n', '\r\n', '{', '[', '$', '\'', 'ENDx' if terminator != 'END' else 'EN',
+             '12', '-', 'x-y', '\t']
+    out = []
+    for _ in range(rng.randint(0, 12)):
+        w = rng.choice(words)
+        if terminator in w:
+            continue
+        out.append(w)
+    s = ' '.join(out)
+    while terminator in s:
+        s = s.replace(terminator, '')
+    return s
+
 
 
 def jname(s):
